@@ -2,6 +2,7 @@ package main
 
 import (
 	"fmt"
+	"time"
 	"go/types"
 	"sort"
 	"strings"
@@ -24,6 +25,7 @@ type VC struct {
 	Callees []string
 	Assumed []string // library symbols used
 	Replay  *ReplaySpec
+	Run     func() SolveResult // non-SMT discharge (bounded enumeration on the real code)
 }
 
 type ReplaySpec struct {
@@ -181,6 +183,39 @@ func (w *World) functionVCs(fn *ssa.Function, prop string, inclBase, safe bool) 
 	if ct != nil && ct.trusted {
 		return nil
 	}
+	if ct != nil && ct.boundAlpha != "" {
+		// outside the verifier's reach: bounded stand-in by exhaustive enumeration on the real code
+		for li, cl := range lawClauses {
+			cl := cl
+			suffix := ""
+			if li > 0 {
+				suffix = fmt.Sprint(li + 1)
+			}
+			bound := fmt.Sprintf("all strings over %q up to length %d", ct.boundAlpha, ct.boundLen)
+			vcs = append(vcs, VC{Name: fmt.Sprintf("%s.law%s.bounded", key, suffix), Prop: prop, Kind: "bounded.law", Fn: key, Clause: "comparator " + cl.src,
+				Bounded: bound, Pos: w.pos(fn.Pos()), Run: func() SolveResult {
+					start := time.Now()
+					cx := runLawSearch(w, fn, cl, ct.boundAlpha, ct.boundLen, 300*time.Second, nil)
+					res := SolveResult{Solver: "enumeration(go test -overlay)", Seconds: time.Since(start).Seconds(), cx: cx}
+					switch {
+					case cx == nil:
+						res.Status = "error"
+						res.Output = "no harness for this signature"
+					case cx.Confirmed:
+						res.Status = "sat"
+						res.Output = cx.Observed
+					case strings.HasPrefix(cx.Observed, "VERIF-OK"):
+						res.Status = "unsat"
+						res.Output = cx.Observed
+					default:
+						res.Status = "error"
+						res.Output = cx.Observed + " " + cx.Output
+					}
+					return res
+				}})
+		}
+		return vcs
+	}
 	// single execution: post + pre + safe
 	if len(postClauses) > 0 || safe {
 		g := newGen(w, []string{prop})
@@ -248,6 +283,11 @@ func (w *World) mkVC(g *Gen, name, prop, kind, fn, clause string, extra []string
 		vc.Callees = append(vc.Callees, w.fnKey(f))
 	}
 	vc.Assumed = sortedKeys(g.libs)
+	for _, f := range g.calleeOrd {
+		if c := w.contractOf(f); c != nil && c.boundAlpha != "" {
+			vc.Bounded = "relative to the bounded premise on " + w.fnKey(f)
+		}
+	}
 	return vc
 }
 
